@@ -158,5 +158,5 @@ PROPS = {
 
 NOT_APPLICABLE = {
     'C13': 'print -> parse round trip of Range: since session 4 both ends are under contract -- Display for BoundSet / Range is proved to write `alts_text(range)` (A16), and every function of the range grammar is proved against a reference reader (A15) -- but the chain between them is not built: the contracts of `range` / `bound_sets` are relational over the lists winnow returns, so one needs (a) that those lists are determined by the text (a functional reader of a whole range text), (b) that this reader, on the printed text of an interval of each of the ten shapes, returns the comparators that were printed, (c) that their intervals have the cuts of the original. None of the three is done, so the property is not claimed; the bounded stand-in checks print -> parse -> same set for the results of the set operations on every run of C07 C08 C15',
-    'C17': 'error input()/offset()/location() depend on where winnow leaves the input on failure, on str slicing and a pointer difference; error kinds on which combinator fails first; none expressible as a contract on code either tool can read',
+    'C17': 'error input()/offset()/location() depend on where winnow leaves the input AFTER A FAILED PARSE and on which combinator fails first -- the assumed winnow contracts (A15) describe accepted input and rejection, not the error value or the input position on failure -- and on str slicing and a pointer difference in the code that builds the error, which rewrite R16 drops from the two parse functions; location() is byte arithmetic on str that Verus cannot read. The bounded stand-in of C06 calls every accessor of every returned error (panic freedom only)',
 }
